@@ -415,7 +415,7 @@ def glob_correspondence(chk, model_bin, globdrv_bin, tier, fixed):
     """runs globmodel and globdrv on the generated cases, diffs line by line; returns the distribution"""
     import time
     rng = chk.rng
-    scale = 1 if tier == "quick" else 10
+    scale = 1 if tier == "quick" else 35
     lines = (gen_glob_cases(rng, 17500 * scale, 3000 * scale) + gen_pattern_cases(rng, 3000 * scale)
              + gen_content_cases(rng, 1000 * scale) + gen_check_cases(rng, 4000 * scale, fixed))
     n_mal0, n_mal1 = 17500 * scale, 20500 * scale
@@ -486,7 +486,7 @@ WALK_TIE = ("globmodel w/t (spec_walk, serial_walk, par_step machine, H2 trace r
             "(xvc_walker::walk_serial / walk_parallel on materialised trees)")
 P17_CLASS = "nested-ignore-pattern-acts-outside-its-directory"
 IGN = ".xvcignore"
-THEOREMS_WALK = "pattern_local / par_walk_deterministic / serial_eq_spec / ignored_dir_hides_subtree / never_enters_xvc_git"
+THEOREMS_WALK = "pattern_local / par_walk_deterministic(_outside_P17) / serial_eq_spec / serial_eq_parallel / ignored_dir_hides_subtree / never_enters_xvc_git / par_walk_terminates"
 
 TRUSTED = [
     "Coq 8.16.1 kernel, coqc; vm_compute in Examples and _refuted witnesses only; no native_compute",
@@ -1085,17 +1085,24 @@ def shrink_tree(entries, still_fails, budget=60):
 def report_walk_failures(chk, bins, base, fails, globals_txt, fixed, reps, jitter_seed, stage="walk"):
     """shrinks the first failures of each (kind, class) and reports all of them"""
     shrunk_budget = {}
+    reported = {}
     for f in fails:
         key = (f["kind"], f["klass"], f.get("cat"))
+        # every failure outside the known classes is reported (at most 5 per kind); of a known class the
+        # first one per oracle category is enough (the KNOWN-FINDING line is printed once per class)
+        reported[key] = reported.get(key, 0) + 1
+        if reported[key] > (1 if f["klass"] else 5):
+            continue
         tree = f["tree"]
-        if f["kind"] in ("oracle", "correspondence") and shrunk_budget.get(key, 0) < 2:
+        if f["kind"] in ("oracle", "correspondence") and shrunk_budget.get(key, 0) < (1 if f["klass"] else 2):
             shrunk_budget[key] = shrunk_budget.get(key, 0) + 1
+            loc = f.get("cat") == "locality"
 
-            def still(t, f=f):
-                fs, _ = walk_batch(_Quiet(chk), bins, base, [t], globals_txt, fixed, reps, jitter_seed, label="shrink")
+            def still(t, f=f, loc=loc):
+                fs, _ = walk_batch(_Quiet(chk), bins, base, [t], globals_txt, fixed, reps, jitter_seed, want_locality=loc, label="shrink")
                 return any(x["kind"] == f["kind"] and x["klass"] == f["klass"] and x.get("cat") == f.get("cat") for x in fs)
-            small = shrink_tree(tree, still)
-            fs, _ = walk_batch(_Quiet(chk), bins, base, [small], globals_txt, fixed, reps, jitter_seed, label="shrink")
+            small = shrink_tree(tree, still, budget=(25 if f["klass"] else 80))
+            fs, _ = walk_batch(_Quiet(chk), bins, base, [small], globals_txt, fixed, reps, jitter_seed, want_locality=loc, label="shrink")
             g = next((x for x in fs if x["kind"] == f["kind"] and x["klass"] == f["klass"] and x.get("cat") == f.get("cat")), None)
             if g is not None:
                 f = dict(g, unshrunk=tree)
@@ -1147,11 +1154,16 @@ def cli_case(xvc_bin, model_bin, entries, globals_txt, repeats=3, track_dir=None
                 fails.append(("xvc file list failed: " + r.err[-200:], {}, [])); break
             lists.append(sorted(x.strip().rstrip("/") for x in r.out.split("\n") if x.strip()))
         if lists:
-            if any(l != lists[0] for l in lists):
-                fails.append(("xvc file list printed different path sets on repeated runs", {"runs": lists}, lists))
-            special = sorted(q for q in lists[0] if ".xvc" in q.split("/") or ".git" in q.split("/"))
+            def is_special(q):
+                return ".xvc" in q.split("/") or ".git" in q.split("/")
+            # paths inside .xvc / .git are one failure of their own (xvc itself writes into .xvc while it
+            # lists, so they also differ from run to run); everything else is judged without them
+            special = sorted({q for l in lists for q in l if is_special(q)})
+            lists = [[q for q in l if not is_special(q)] for l in lists]
             if special:
                 fails.append(("xvc file list printed a path inside .xvc / .git: %s" % special[0], {"special": special}, lists))
+            if any(l != lists[0] for l in lists):
+                fails.append(("xvc file list printed different path sets on repeated runs", {"runs": lists}, lists))
             exp = sorted(ref)
             if sorted(set(lists[0])) != exp:
                 fails.append(("xvc file list differs from the walk in which every pattern acts only below the directory of its ignore file",
@@ -1223,7 +1235,8 @@ def load_corpus():
     return out
 
 
-def report_cli(chk, model_bin, fails, globals_txt, fixed):
+def report_cli(chk, model_bin, fails, globals_txt, fixed, seen=None):
+    seen = seen if seen is not None else {}
     for what, det, observed, tree, ref in fails:
         if "special" in det:
             ok, why = whitelist_explains(model_bin, tree, det["special"], fixed)
@@ -1231,6 +1244,11 @@ def report_cli(chk, model_bin, fails, globals_txt, fixed):
         else:
             ok, why = p17_explains(model_bin, tree, ref, observed) if observed else (False, {})
             klass = P17_CLASS if ok else None
+        # a known class is reported once per run and oracle; anything else always (at most 5 per oracle)
+        key = (klass, what.split(":")[0][:60])
+        seen[key] = seen.get(key, 0) + 1
+        if seen[key] > (1 if klass else 5):
+            continue
         chk.fail("oracle", what, {"stage": "cli", "input": {"globals": globals_txt, "entries": tree},
                                   "readable": ["%s %s%s" % (k, p, (" <- " + repr(c)) if c else "") for k, p, c in tree],
                                   "detail": dict(det, explained_by=why), "theorem_or_correspondence": THEOREMS_WALK + "; CLI level"},
@@ -1263,7 +1281,7 @@ def run(chk, replay=None):
     base = C.scratch_dir("c09")
     dist = {}
     try:
-        reps = 10 if quick else 40
+        reps = 10 if quick else 30
         jitter = chk.seed * 1000 + 17
         # ---- replay of one recorded input
         if replay:
@@ -1319,7 +1337,7 @@ def run(chk, replay=None):
 
         # ---- (2) walks
         t0 = time.time()
-        ntrees = 180 if quick else 1500
+        ntrees = 180 if quick else 1800
         trees = [gen_tree(rng) for _ in range(ntrees)]
         # the same tree in a second enumeration order of the entries (creation order on disk)
         trees += [shuffle_tree(rng, t) for t in trees[:ntrees // 6]]
@@ -1335,6 +1353,10 @@ def run(chk, replay=None):
         st["h2_present"] = st["traces"] > 0
         dist["walk"] = st
         chk.cov["traces_validated_against_impl"] = st["traces"]
+        chk.cov["h2_present"] = st["h2_present"]
+        if not st["h2_present"]:
+            chk.cov["h2_note"] = ("hook H2 (repo-patches/50-hook-H2-walker-trace.diff) is not in the tree: no thread-level traces, no injected jitter; "
+                                  "walk_parallel is compared through its results only (10 runs per tree)")
         C.log("walks: %d trees, %d real walks, %d H2 traces (%d events, %d cross-thread adjacent pairs), %d locality variants, %d failure(s) %s, %.1fs" % (
             st["trees"], st["walks"], st["traces"], st["trace_events"], st["interleaved_pairs"], st["locality_variants"], len(fs), st["failures_by_class"], st["wall_s"]))
         for t in (trees[0], trees[len(trees) // 2]):
@@ -1350,11 +1372,12 @@ def run(chk, replay=None):
         with ThreadPoolExecutor(4) as ex:
             rs = list(ex.map(lambda a: cli_case(xvc_bin, model_bin, a[0], globals_txt, repeats=3 if quick else 5, track_dir=a[1]), zip(ctrees, tdirs)))
         nfail = 0
+        seen_cli = {}
         for t, (fl, n) in zip(ctrees, rs):
             ncli += n
             chk.count(("cli", enc_entries(t)), tree_is_nontrivial(t))
             nfail += len(fl)
-            report_cli(chk, model_bin, fl[:2], globals_txt, fixed)
+            report_cli(chk, model_bin, fl, globals_txt, fixed, seen_cli)
         dist["cli"] = {"repositories": ncases, "xvc_invocations": ncli, "failures": nfail, "wall_s": round(time.time() - t0, 1)}
         C.log("cli: %d repositories, %d xvc invocations, %d failure(s), %.1fs" % (ncases, ncli, nfail, time.time() - t0))
     finally:
